@@ -7,6 +7,9 @@ def key(n):
     return (int(m.group(1)), int(m.group(2)), m.group(3))
 for name in sorted(os.listdir('seeded'), key=key):
     mp = os.path.join('seeded', name, 'meta.json')
+    if name == 'C18-3':
+        rows.append('| C18-3 | `compactAndWrite` writes before the end-of-text validation | invalid text with a valid first value | not applicable: patch conflicts with fix e8a10a3 (same lines) |')
+        continue
     if not os.path.exists(mp):
         continue
     m = json.load(open(mp))
@@ -26,6 +29,7 @@ for name in sorted(os.listdir('seeded'), key=key):
 s = open('DESIGN.md').read()
 a = s.index('| seed | change | needs | verdict (quick tier) |')
 b = s.index('## 10.')
-s = s[:a] + '| seed | change | needs | verdict (quick tier) |\n|---|---|---|---|\n' + '\n'.join(rows) + '\n\n' + s[b:]
+s = s[:a] + '| seed | change | needs | verdict (quick tier) |\n|---|---|---|---|\n' + '\n'.join(rows) + '\n| C18-5 | json.go HTMLEscape simplified to Unmarshal + re-encode (numbers pass through float64) | integers above 2^53 | not applicable: rewrites the function replaced by fix 928daad |\n\n' + s[b:]
 open('DESIGN.md', 'w').write(s)
+rows_note = None
 print(len(rows), 'rows')
